@@ -121,6 +121,120 @@ fn run_history(ops: &[Op], c: Cfg, arity: usize) -> (Vec<String>, Vec<String>) {
     (coq, desc)
 }
 
+const RELS: [&str; 2] = ["r", "r_weight"]; // one shard name is a prefix of the other
+
+fn observe2(e: &StorageEngine, dir: &std::path::Path, arity: usize, c: Cfg) -> (Vec<Tuple>, Vec<Tuple>, usize, Option<usize>) {
+    let vars: Vec<String> = (0..arity).map(|i| format!("X{}", i)).collect();
+    let q = |rel: &str| e.execute_query_tuples_on(KG, &format!("q({}) <- {}({})", vars.join(", "), rel, vars.join(", "))).unwrap_or_default();
+    let (_, nb, wl) = observe(e, dir, arity, c);
+    (q(RELS[0]), q(RELS[1]), nb, wl)
+}
+
+/// two relations in one knowledge graph; writes name their relation, maintenance applies to the store
+fn run_history2(ops: &[(usize, Op)], c: Cfg, arity: usize) -> (Vec<String>, Vec<String>) {
+    let dir = tempfile::tempdir().expect("tempdir");
+    let cfg = mk_config(dir.path(), c);
+    let mut eng = Some(StorageEngine::new(cfg.clone()).expect("open fresh store"));
+    let mut coq = vec![];
+    let mut desc = vec![];
+    for (rel, op) in ops {
+        let Some(e) = eng.as_ref() else {
+            break;
+        };
+        let name = RELS[*rel];
+        let (co, d) = match op {
+            Op::Ins(ts) => {
+                let r = e.insert_tuples_into(KG, name, ts.clone());
+                let res = match &r {
+                    Ok((n, d)) => format!("(Some ({}, {}))", coq_n(*n as u128), coq_n(*d as u128)),
+                    Err(_) => "None".to_string(),
+                };
+                (format!("C14Ins {} {}", coq_tuples(ts), res), format!("insert into {} {} => {:?}", name, ts.iter().map(show_tuple).collect::<Vec<_>>().join(" "), r.map_err(|e| e.to_string())))
+            }
+            Op::Del(ts) => {
+                let r = e.delete_tuples_from(KG, name, ts.clone());
+                let res = match &r {
+                    Ok(n) => format!("(Some {})", coq_n(*n as u128)),
+                    Err(_) => "None".to_string(),
+                };
+                (format!("C14Del {} {}", coq_tuples(ts), res), format!("delete from {} {} => {:?}", name, ts.iter().map(show_tuple).collect::<Vec<_>>().join(" "), r.map_err(|e| e.to_string())))
+            }
+            Op::Save => {
+                let r = e.save_all();
+                (format!("C14Save {}", coq_bool(r.is_ok())), format!("save => {:?}", r.map_err(|e| e.to_string())))
+            }
+            Op::Compact => {
+                let r = e.compact_all();
+                (format!("C14Compact {}", coq_bool(r.is_ok())), format!("compact => {:?}", r.map_err(|e| e.to_string())))
+            }
+            Op::Restart | Op::DropReopen => {
+                let graceful = matches!(op, Op::Restart);
+                let saved = if graceful { e.save_all().map_err(|e| e.to_string()) } else { Ok(()) };
+                drop(eng.take());
+                let reopened = StorageEngine::new(cfg.clone());
+                let ok = saved.is_ok() && reopened.is_ok();
+                let d = format!("{} => save {:?}, reopen {}", if graceful { "graceful restart" } else { "drop + reopen (nothing saved)" }, saved, match &reopened {
+                    Ok(_) => "ok".to_string(),
+                    Err(e) => format!("FAILED {}", e),
+                });
+                if let Ok(e2) = reopened {
+                    eng = Some(e2);
+                }
+                (format!("{} {}", if graceful { "C14Restart" } else { "C14DropReopen" }, coq_bool(ok)), d)
+            }
+        };
+        let second = coq_bool(*rel == 1);
+        let Some(e) = eng.as_ref() else {
+            coq.push(format!("(({}, ({})), C14Obs2 [] [] 0%N None)", second, co));
+            desc.push(d);
+            break;
+        };
+        let (q1, q2, nb, wl) = observe2(e, dir.path(), arity, c);
+        coq.push(format!("(({}, ({})), C14Obs2 {} {} {} {})", second, co, coq_tuples(&q1), coq_tuples(&q2), coq_n(nb as u128), coq_opt(wl.map(|n| coq_n(n as u128)))));
+        let show = |q: &Vec<Tuple>| {
+            let mut v: Vec<String> = q.iter().map(show_tuple).collect();
+            v.sort();
+            v.join(" ")
+        };
+        desc.push(format!("{}   -> r={{{}}} r_weight={{{}}} batches={} wal_lines={:?}", d, show(&q1), show(&q2), nb, wl));
+    }
+    (coq, desc)
+}
+
+fn emit2(sink: &mut Sink, ops: &[(usize, Op)], c: Cfg, kind: u64, tag: &'static str) {
+    if !sink.wants(sink.next_idx()) {
+        sink.push(String::new(), serde_json::json!(null), &[tag], None);
+        return;
+    }
+    let (coq, desc) = run_history2(ops, c, arity_of(kind));
+    let term = format!("C14Case2 {} {}", coq_cfg(c), coq_list(&coq));
+    sink.tally("relations:2");
+    sink.tally(&format!("buffer:{}", c.buffer));
+    sink.tally(&format!("mode:{:?}", c.mode));
+    let mut wrote = false;
+    let mut maint_after_write = false;
+    for (_, op) in ops {
+        sink.tally(match op {
+            Op::Ins(_) => "op:insert",
+            Op::Del(_) => "op:delete",
+            Op::Save => "op:save",
+            Op::Compact => "op:compact",
+            Op::Restart => "op:restart",
+            Op::DropReopen => "op:drop-reopen",
+        });
+        match op {
+            Op::Ins(_) | Op::Del(_) => wrote = true,
+            _ => {
+                if wrote {
+                    maint_after_write = true;
+                }
+            }
+        }
+    }
+    let key = if maint_after_write { Some(format!("2rel {:?} {} {:?}", c, kind, ops)) } else { None };
+    sink.push(term, serde_json::json!({"config": format!("{:?}", c), "relations": RELS, "tuple_kind": kind, "steps": desc}), &[tag], key);
+}
+
 fn mk_tuple(kind: u64, i: u64) -> Tuple {
     match kind {
         0 => Tuple::new(vec![Value::Int64(i as i64), Value::String(format!("s{}", i % 2).into())]),
@@ -240,6 +354,47 @@ fn main() {
         }
         ops.push(Op::Restart);
         emit(&mut sink, &ops, c, kind, "random");
+    }
+    // ---- two relations whose shard names are prefix-related (`default:r`, `default:r_weight`): one relation is
+    //      flushed alone by a full buffer while the other still has WAL-only updates, then the engine is dropped
+    //      and reopened WITHOUT a save (immediate / batched durability: every acknowledged write is in the WAL)
+    for &buffer in &[1usize, 2, 3, 10000] {
+        for &mode in &[DurabilityMode::Immediate, DurabilityMode::Batched] {
+            let c = Cfg { buffer, max_wal: 0, mode };
+            for (a, b) in [(0usize, 1usize), (1, 0)] {
+                // relation `a` fills its buffer (3 updates), relation `b` has one / two updates only
+                let ops = vec![(b, Op::Ins(vec![x(0)])), (a, Op::Ins(vec![x(0), y(0), z(0)])), (b, Op::Ins(vec![y(0)])), (0, Op::DropReopen), (a, Op::Del(vec![y(0)])), (b, Op::Del(vec![x(0)])), (a, Op::Ins(vec![x(0), y(0)])), (0, Op::DropReopen), (0, Op::Compact), (0, Op::DropReopen), (0, Op::Restart)];
+                emit2(&mut sink, &ops, c, 0, "corpus-2rel");
+            }
+        }
+    }
+    for _ in 0..(args.n / 2) {
+        let mode = *rng.pick(&modes);
+        let c = Cfg { buffer: *rng.pick(&[1usize, 2, 3, 4, 10000]), max_wal: *rng.pick(&[0u64, 67_108_864]), mode };
+        let kind = rng.below(4);
+        let dom = rng.range(2, 4) as u64;
+        let len = rng.range(3, 14);
+        let mut ops = vec![];
+        for _ in 0..len {
+            let rel = rng.below(2) as usize;
+            let pick = |rng: &mut Rng| mk_tuple(kind, rng.below(dom));
+            match rng.below(20) {
+                0..=8 => {
+                    let n = rng.range(1, 3);
+                    ops.push((rel, Op::Ins((0..n).map(|_| pick(&mut rng)).collect())));
+                }
+                9..=12 => {
+                    let n = rng.range(1, 2);
+                    ops.push((rel, Op::Del((0..n).map(|_| pick(&mut rng)).collect())));
+                }
+                13 => ops.push((0, Op::Save)),
+                14 | 15 => ops.push((0, Op::Compact)),
+                16 => ops.push((0, Op::Restart)),
+                _ => ops.push((0, if mode != DurabilityMode::Async { Op::DropReopen } else { Op::Restart })),
+            }
+        }
+        ops.push((0, if mode != DurabilityMode::Async { Op::DropReopen } else { Op::Restart }));
+        emit2(&mut sink, &ops, c, kind, "random-2rel");
     }
     sink.finish();
 }
